@@ -10,6 +10,10 @@ and the loop's functor queue that decide what a client's user can observe.
   the channel dispatch masks are those of `Generated/Conn.lean`.
 * Everything the environment decides is an input: the result of `::connect`, `SO_ERROR`,
   self-connect, what the poller reports, `readv` results on the connection, the clock.
+* The user's connection callback is part of the model: `hookUp op` / `hookDown op` register what it does to the
+  client (`disconnect()`, `stop()`, `connect()`, reading `connection()`) the next time it is told UP / DOWN; the
+  operation runs where the code calls the callback - inside `connectEstablished()` (after or before `connection_`
+  is stored: the generated `publishBeforeEstablish`) and inside `handleClose()` before `closeCallback_`.
 * Sockets are numbered in creation order; `sockSt` is the ghost status of each.
 * Ghost fields (`nretry`, `ups`, `stopReq`, `trace`) and the `Ev.ghost` marks record history for the theorems.
 -/
@@ -63,6 +67,11 @@ structure ConnRec where
   destroyed : Bool := false   -- `~TcpConnection` ran: descriptor closed
 deriving DecidableEq, Repr
 
+/-- what the user's connection callback does when it runs (harness: `hook up|down <op>`): an operation on
+the client from inside its own callback, on the loop thread; `query` reads `client.connection()` -/
+inductive HookOp | disconnect | stop | connect | query
+deriving DecidableEq, Repr
+
 /-- ghost marks in the trace (never printed): the start of a connect cycle
 (`startCycleInLoop` / `restart`) and the user's `connect()`, `stop()`, `~TcpClient` calls -/
 inductive Ghost | cycle | connect | stop | destroy
@@ -76,6 +85,7 @@ inductive Ev
   | connClosed (k : Nat)                   -- closed by `~TcpConnection`
   | up (k : Nat) | down (k : Nat)
   | shutdownWr (k : Nat)
+  | query (k : Nat) (seen : Option Nat)    -- inside the callback reporting connection k, `connection()` returned `seen`
   | retryScheduled (i : Nat) (ms : Nat) (t : Nat)   -- ghost: i-th retry of the cycle, delay, time of the failure
   | abort (what : String)
   | uaf (what : String)
@@ -92,6 +102,8 @@ deriving DecidableEq, Repr
 inductive In
   | connect (w : Who) | disconnect (w : Who) | stop (w : Who) | enableRetry | destroy (w : Who)
   | holdRef | dropRef
+  -- the user's connection callback will perform `op` at the next UP / DOWN report (one-shot, first registered first)
+  | hookUp (op : HookOp) | hookDown (op : HookOp)
   | advance (us : Nat)
   | iter (active : List Src)
   -- results the environment will give to the next calls, in order
@@ -115,6 +127,9 @@ structure C where
   connection : Option Nat := none
   clientAlive : Bool := true
   conns : List ConnRec := []
+  -- what the user's connection callback will do at the next UP / DOWN reports
+  hooksUp : List HookOp := []
+  hooksDown : List HookOp := []
   -- the loop
   pending : List Task := []
   batch : List Task := []        -- the functors `doPendingFunctors` is running (destroyed when it returns)
@@ -239,11 +254,81 @@ def resetChannel (c : C) : C :=
   if c.chan.isSome ∧ c.chanOn then die c (.uaf "channel destroyed while registered")
   else { c with chan := none }
 
-/-- `TcpClient::newConnection(sockfd)` up to and including the UP callback -/
+/-! ### the connection: what the client's operations need -/
+def findConn (c : C) (k : Nat) : Option ConnRec := c.conns.find? (·.sock == k)
+def updConn (c : C) (k : Nat) (f : ConnRec → ConnRec) : C :=
+  { c with conns := c.conns.map (fun r => if r.sock == k then f r else r) }
+def connSt (c : C) (k : Nat) : TState := ((findConn c k).map (·.st)).getD .disconnected
+
+/-- `TcpConnection::shutdown()` -/
+def connShutdown (c : C) (k : Nat) : C :=
+  if connSt c k = .connected then enqueue (updConn c k (fun r => { r with st := .disconnecting })) (.shutdownInLoop k) else c
+
+/-- `TcpConnection::forceClose()` -/
+def connForceClose (c : C) (k : Nat) : C :=
+  if connSt c k = .connected ∨ connSt c k = .disconnecting then
+    enqueue (updConn c k (fun r => { r with st := .disconnecting })) (.forceCloseInLoop k) else c
+
+/-! ### the user's operations on a live client -/
+def userConnect (c : C) (w : Who) : C :=
+  let c1 : C := { c with tConnect := true, cConnect := true, stopReq := false, trace := c.trace ++ [.ghost .connect] }
+  match startDispatch, w with
+  | .run, .loop => startCycle c1
+  | _, _ => enqueue c1 .startCycle
+
+def connectorStop (c : C) (w : Who) : C :=
+  let c1 : C := { c with cConnect := false }
+  match stopDispatch, w with
+  | .run, .loop => stopInLoop c1
+  | _, _ => enqueue c1 .stopInLoop
+
+def userStop (c : C) (w : Who) : C :=
+  connectorStop { c with tConnect := false, stopReq := true, trace := c.trace ++ [.ghost .stop] } w
+
+def userDisconnect (c : C) : C :=
+  let c1 : C := { c with tConnect := false }
+  match c1.connection with
+  | some k => connShutdown c1 k
+  | none => c1
+
+/-! ### the user's connection callback -/
+
+/-- one operation performed by the user's connection callback while it reports connection `k`, on the loop thread -/
+def hookOp (c : C) (k : Nat) : HookOp → C
+  | .disconnect => userDisconnect c
+  | .stop => userStop c .loop
+  | .connect => userConnect c .loop
+  | .query => emit c (.query k c.connection)
+
+/-- the user's callback on UP: the first registered operation (if any) is performed, once; a callback that finds
+its client gone does nothing (and keeps the operation) -/
+def runHookUp (c : C) (k : Nat) : C :=
+  if c.clientAlive then
+    match c.hooksUp with
+    | [] => c
+    | op :: rest => hookOp { c with hooksUp := rest } k op
+  else c
+
+/-- the user's callback on DOWN -/
+def runHookDown (c : C) (k : Nat) : C :=
+  if c.clientAlive then
+    match c.hooksDown with
+    | [] => c
+    | op :: rest => hookOp { c with hooksDown := rest } k op
+  else c
+
+/-- `TcpClient::newConnection(sockfd)`: a `TcpConnection` takes the descriptor; `connection_` is published and
+`connectEstablished()` reports UP - the user's callback runs inside it - in the order the source has them
+(`publishBeforeEstablish`, generated) -/
 def newConnection (c : C) (k : Nat) : C :=
   if c.clientAlive then
-    { c with sockSt := c.sockSt.set k .handedOver, conns := c.conns ++ [{ sock := k }], connection := some k,
-             ups := c.ups + 1, trace := c.trace ++ [.handedOver k, .up k] }
+    if publishBeforeEstablish then
+      runHookUp { c with sockSt := c.sockSt.set k .handedOver, conns := c.conns ++ [{ sock := k }], connection := some k,
+                         ups := c.ups + 1, trace := c.trace ++ [.handedOver k, .up k] } k
+    else
+      let c2 := runHookUp { c with sockSt := c.sockSt.set k .handedOver, conns := c.conns ++ [{ sock := k }],
+                                   ups := c.ups + 1, trace := c.trace ++ [.handedOver k, .up k] } k
+      if c2.dead then c2 else { c2 with connection := some k }
   else die c (.uaf "TcpClient::newConnection")
 
 /-- `Connector::handleWrite()` -/
@@ -283,22 +368,22 @@ def dispatchConnector (c : C) (rev : Nat) : C :=
   else c
 
 /-! ### the connection -/
-def findConn (c : C) (k : Nat) : Option ConnRec := c.conns.find? (·.sock == k)
-def updConn (c : C) (k : Nat) (f : ConnRec → ConnRec) : C :=
-  { c with conns := c.conns.map (fun r => if r.sock == k then f r else r) }
-
 /-- `TcpConnection::handleClose()` with `TcpClient::removeConnection` / `detail::removeConnection` behind it -/
 def handleClose (c : C) (k : Nat) : C :=
   let cb := ((findConn c k).map (·.closeCb)).getD .detached
   let c1 : C := { updConn c k (fun r => { r with st := .disconnected, chanOn := false }) with trace := c.trace ++ [.down k] }
-  match cb with
-  | .detached => enqueue c1 (.connectDestroyed k)
-  | .client =>
-    if ¬ c1.clientAlive then die c1 (.uaf "TcpClient::removeConnection")
-    else if c1.asserts ∧ c1.connection ≠ some k then die c1 (.abort "connection_ == conn")
-    else
-      let c2 : C := { c1 with connection := none, pending := c1.pending ++ [.connectDestroyed k] }
-      if reconnects c2.retry c2.tConnect then restart c2 else c2
+  -- `connectionCallback_` (DOWN, the user's callback) runs before `closeCallback_`
+  let c2 := runHookDown c1 k
+  if c2.dead then c2
+  else
+    match cb with
+    | .detached => enqueue c2 (.connectDestroyed k)
+    | .client =>
+      if ¬ c2.clientAlive then die c2 (.uaf "TcpClient::removeConnection")
+      else if c2.asserts ∧ c2.connection ≠ some k then die c2 (.abort "connection_ == conn")
+      else
+        let c3 : C := { c2 with connection := none, pending := c2.pending ++ [.connectDestroyed k] }
+        if reconnects c3.retry c3.tConnect then restart c3 else c3
 
 /-- `TcpConnection::handleRead()`: only the end of stream matters here -/
 def handleRead (c : C) (k : Nat) : C :=
@@ -326,11 +411,9 @@ def connectDestroyed (c : C) (k : Nat) : C :=
   match findConn c k with
   | some r =>
     if r.st = .connected then
-      { updConn c k (fun r => { r with st := .disconnected, chanOn := false }) with trace := c.trace ++ [.down k] }
+      runHookDown { updConn c k (fun r => { r with st := .disconnected, chanOn := false }) with trace := c.trace ++ [.down k] } k
     else updConn c k (fun r => { r with chanOn := false })
   | none => c
-
-def connSt (c : C) (k : Nat) : TState := ((findConn c k).map (·.st)).getD .disconnected
 
 /-- `~Connector` when its last owner goes: `assert(!channel_)` -/
 def reapConnector (c : C) : C :=
@@ -396,37 +479,7 @@ def iter (c : C) (active : List Src) : C :=
       let c3 := reapConnector { c2 with batch := [] }
       if c3.dead then c3 else reap c3
 
-/-! ### the user's operations -/
-def userConnect (c : C) (w : Who) : C :=
-  let c1 : C := { c with tConnect := true, cConnect := true, stopReq := false, trace := c.trace ++ [.ghost .connect] }
-  match startDispatch, w with
-  | .run, .loop => startCycle c1
-  | _, _ => enqueue c1 .startCycle
-
-def connectorStop (c : C) (w : Who) : C :=
-  let c1 : C := { c with cConnect := false }
-  match stopDispatch, w with
-  | .run, .loop => stopInLoop c1
-  | _, _ => enqueue c1 .stopInLoop
-
-def userStop (c : C) (w : Who) : C :=
-  connectorStop { c with tConnect := false, stopReq := true, trace := c.trace ++ [.ghost .stop] } w
-
-/-- `TcpConnection::shutdown()` -/
-def connShutdown (c : C) (k : Nat) : C :=
-  if connSt c k = .connected then enqueue (updConn c k (fun r => { r with st := .disconnecting })) (.shutdownInLoop k) else c
-
-/-- `TcpConnection::forceClose()` -/
-def connForceClose (c : C) (k : Nat) : C :=
-  if connSt c k = .connected ∨ connSt c k = .disconnecting then
-    enqueue (updConn c k (fun r => { r with st := .disconnecting })) (.forceCloseInLoop k) else c
-
-def userDisconnect (c : C) : C :=
-  let c1 : C := { c with tConnect := false }
-  match c1.connection with
-  | some k => connShutdown c1 k
-  | none => c1
-
+/-! ### the user's operations (continued) -/
 def useCount (c : C) (k : Nat) : Nat :=
   1 + (if ((findConn c k).map (·.userRef)).getD false then 1 else 0) + (c.pending.filter (·.holds k)).length
 
@@ -466,6 +519,8 @@ def stepLive (c : C) : In → C
   | .destroy w => if c.clientAlive then userDestroy c w else die c (.uaf "double destruction")
   | .holdRef => holdRef c
   | .dropRef => dropRef c
+  | .hookUp op => { c with hooksUp := c.hooksUp ++ [op] }
+  | .hookDown op => { c with hooksDown := c.hooksDown ++ [op] }
   | .advance us => { c with now := c.now + us }
   | .iter active => iter c active
   | .envConnect r => { c with envConnect := c.envConnect ++ [r] }
